@@ -280,6 +280,12 @@ def linear_path(fi: FuncInfo, consts: Dict[str, int]) -> List[ast.stmt]:
                 if walk(st.body if v else st.orelse):
                     return True
                 continue
+            if isinstance(st, ast.Assign) and len(st.targets) == 1 and isinstance(st.targets[0], ast.Name) and st.targets[0].id not in consts \
+                    and any(isinstance(n, ast.Name) and n.id in consts for n in ast.walk(st.value)) and fold_int(st.value, consts) is not None:
+                # a new local computed from the known integers only:  quarter_turns = times % 4
+                consts[st.targets[0].id] = fold_int(st.value, consts)
+                out.append(st)
+                continue
             if isinstance(st, ast.Assign) and len(st.targets) == 1 and isinstance(st.targets[0], ast.Name) and st.targets[0].id in consts:
                 # re-normalisation of a known integer:  times = times % 4
                 val = fold_int(st.value, consts)
@@ -357,6 +363,11 @@ class PermOps:
             if isinstance(st, ast.Assign) and len(st.targets) == 1 and isinstance(st.targets[0], ast.Name):
                 name = st.targets[0].id
                 if name in consts:
+                    continue
+                vnames = {n.id for n in ast.walk(st.value) if isinstance(n, ast.Name)}
+                if vnames and vnames <= set(consts) and fold_int(st.value, consts) is not None:
+                    consts = dict(consts)
+                    consts[name] = fold_int(st.value, consts)
                     continue
                 # result = [0] * n
                 if isinstance(st.value, ast.BinOp) and isinstance(st.value.op, ast.Mult) and isinstance(st.value.left, ast.List):
